@@ -225,6 +225,10 @@ class IndexStrategy(_Container):
         out["converted_to_the_schema_dtype"] = len(ast) >= 1 and ast[0][1] is pandera_dtype.type
         out["nulls_only_when_nullable"] = (Implies(True, nullable) if v.may_null else True)
         out["unique_values_stay_unique"] = Not(And(v.unique, v.may_null))
+        # a masked entry IS the missing value of the drawn index: no step may rewrite the values after the mask (a `map(str)` after it
+        # turns every missing entry into the text 'nan' - a value that never came from the element strategy of the checks)
+        kinds = [st[0] for st in v.steps]
+        out["the_null_mask_is_the_last_step_that_touches_the_values"] = ("mask" not in kinds) or not any(k in ("map", "astype") for k in kinds[kinds.index("mask") + 1:])
         if isinstance(checks, ListObj):
             # as series_strategy does: a vectorised check that has no strategy can only be honoured by filtering whole draws
             ops, _root = result.chain()
@@ -233,6 +237,36 @@ class IndexStrategy(_Container):
 
     def on_raise(self, exc, old, pandera_dtype, **a):
         return {"only_a_missing_dtype_is_reported": exc.cls is schema_definition_error() and pandera_dtype is None}
+
+
+def _index_strategy_replay(self, rec):
+    def thunk():
+        """a nullable text index with a check the text 'nan' fails: every draw validates against the schema it was drawn for"""
+        import warnings
+
+        import hypothesis
+        import pandas as pd
+        import pandera as pa
+
+        warnings.simplefilter("ignore")
+        schema = pa.DataFrameSchema({"a": pa.Column(int)}, index=pa.Index(str, pa.Check.str_startswith("id_"), nullable=True))
+        rejected = []
+
+        @hypothesis.settings(max_examples=40, derandomize=True, database=None, deadline=None, suppress_health_check=list(hypothesis.HealthCheck))
+        @hypothesis.given(schema.strategy(size=4))
+        def run(df):
+            try:
+                schema.validate(df)
+            except Exception as e:  # noqa: BLE001
+                rejected.append((list(df.index), type(e).__name__))
+
+        run()
+        return bool(rejected), ({"draws rejected by their own schema (index, error)": rejected[:3], "count": len(rejected)} if rejected else "40 draws of a nullable text index validate")
+
+    return thunk
+
+
+IndexStrategy.concretize = _index_strategy_replay
 
 
 class ColumnStrategy(_Container):
